@@ -366,6 +366,23 @@ impl Corpus {
       sources.insert(m.clone(), t);
       overrides.insert(m.clone());
     }
+    // loop classes: tail-recursive functions with constant bounds (the compiler turns them into
+    // while loops; strength reduction / induction-variable elimination allocate temporaries for
+    // them in every optimizer round), two of which call a closure inside the loop
+    let n_loops = rng.range(2, 8);
+    let mut loop_classes: Vec<(usize, String)> = Vec::new();
+    for l in 0..n_loops {
+      let mi = rng.below(n_modules);
+      let cn = format!("{}{l}", rng.pick(&["Loop", "Walker", "AnIteratingClassWithLongName"]));
+      let (b1, m1, a1, s1) = (rng.range(4, 18), rng.range(2, 13), rng.range(1, 12), rng.range(1, 3));
+      let (b2, m2, b3, s3) = (rng.range(5, 20), rng.range(2, 14), rng.range(10, 32), rng.range(1, 2));
+      let t = format!(
+        "class {cn} {{\n  function each(i: int, f: (int) -> unit): unit =\n    if i >= {b1} {{  }} else {{\n      f(i * {m1} + {a1});\n      {cn}.each(i + {s1}, f)\n    }}\n\n  function fold(i: int, acc: int, f: (int, int) -> int): int =\n    if i >= {b2} {{ acc }} else {{ {cn}.fold(i + 1, f(acc, i * {m2} + 5), f) }}\n\n  function sum(i: int, acc: int): int =\n    if i >= {b3} {{ acc }} else {{ {cn}.sum(i + {s3}, acc + i * {m1} + {l}) }}\n\n  function run(seed: int): unit = {{\n    {cn}.each(seed, (x) -> Process.println(Str.fromInt(x)));\n    Process.println(Str.fromInt({cn}.fold(seed, {l}, (a, b) -> a + b * 2)));\n    Process.println(Str.fromInt({cn}.sum(seed, 1)));\n  }}\n}}\n\n"
+      );
+      let m = mod_names[mi].clone();
+      sources.get_mut(&m).unwrap().push_str(&t);
+      loop_classes.push((mi, cn));
+    }
     // main: call every function from here with literals; different literals for the same function
     let main: ModName = vec!["app".into(), "Main".into()];
     let mut t = String::new();
@@ -378,7 +395,13 @@ impl Corpus {
     for (cm, names) in &by_mod {
       t.push_str(&format!("import {{ {} }} from {};\n", names.iter().cloned().collect::<Vec<_>>().join(", "), mod_names[*cm].join(".")));
     }
+    for (cm, cn) in &loop_classes {
+      t.push_str(&format!("import {{ {cn} }} from {};\n", mod_names[*cm].join(".")));
+    }
     t.push_str("import { Box, Shape } from shared.Containers;\n\nclass Main {\n  function main(): unit = {\n");
+    for (li, (_, cn)) in loop_classes.iter().enumerate() {
+      t.push_str(&format!("    {cn}.run({});\n", li % 2));
+    }
     for (i, f) in fns.iter().enumerate() {
       for _ in 0..rng.range(1, 2) {
         let args: Vec<String> = (0..f.params).map(|_| format!("{}", rng.pick(&lits))).collect();
